@@ -596,7 +596,7 @@ class Daemon(object):
                         if info:
                             last_use_period = time.time() - info[1]
                             if 0 < config.ITER_STREAM_LIFETIME < last_use_period:
-                                del self.streaming_responses[streamId]
+                                self.streaming_responses.pop(streamId, None)    # (a worker may have removed it in the meantime)
                 if config.ITER_STREAM_LINGER > 0:
                     # cleanup iter streams that are past their linger time
                     for streamId in list(self.streaming_responses.keys()):
@@ -604,7 +604,7 @@ class Daemon(object):
                         if info and info[2]:
                             linger_period = time.time() - info[2]
                             if linger_period > config.ITER_STREAM_LINGER:
-                                del self.streaming_responses[streamId]
+                                self.streaming_responses.pop(streamId, None)
             self.housekeeping()
 
     def housekeeping(self):
